@@ -81,6 +81,13 @@ def run(ctx):
   explorer.explore_all(ctx, MODULE, shc, pre_bound=-1, dev_bound=dev,
                        split=0 if ctx.quick else 8)
   ctx.notes['sharded_pipeline_configurations'] = len(shc)
+  # a slow orchestrator: one pause (until quiescence) at any executed line of
+  # as_completed / next_idle_worker / submit, combined with <= 1 fault
+  paused = [('as_completed', dict(W=2, T=2, menu=MENU, pause=True)),
+            ('as_completed', dict(W=2, T=3, bad=1, ignore=True, pause=True)),
+            ('as_completed', dict(W=1, T=2, driver='run', pause=True))]
+  explorer.explore_all(ctx, MODULE, paused, pre_bound=-1,
+                       dev_bound=1 if ctx.quick else 2, split=16)
   # the smallest configuration also under schedule exploration
   explorer.explore_all(
       ctx, MODULE, [('as_completed', dict(W=2, T=2, mode='delay'))],
